@@ -23,7 +23,7 @@ try:
     for f in demos + extra: shutil.copy(os.path.join(src, f), wt)
     def build_demo(tag):
         if not cpp: return 0, ''
-        return step('build demo (%s)' % tag, 'g++ -std=c++14 -O1 -I%s/include -I%s/bin -I%s %s %s/bin/printers.cpp %s/include/binlog/*.cpp %s/include/binlog/detail/*.cpp -pthread -o %s/demo_%s' % (wt, wt, wt, os.path.join(wt, cpp[0]), wt, wt, wt, wt, tag), wt)
+        return step('build demo (%s)' % tag, 'g++ -std=' + os.environ.get('CONFIRM_STD', 'c++14') + ' -O1 -I%s/include -I%s/bin -I%s %s %s/bin/printers.cpp %s/include/binlog/*.cpp %s/include/binlog/detail/*.cpp -pthread -o %s/demo_%s' % (wt, wt, wt, os.path.join(wt, cpp[0]), wt, wt, wt, wt, tag), wt)
     def run_demo(tag):
         if cpp: return step('run demo (%s)' % tag, 'timeout 900 %s/demo_%s' % (wt, tag), wt)
         return step('run demo.sh (%s)' % tag, 'timeout 900 bash %s/demo.sh %s/_b' % (wt, wt), wt)
